@@ -9,6 +9,9 @@
 """
 import ast
 import os
+import warnings
+
+warnings.filterwarnings('ignore', category=SyntaxWarning)
 
 
 class Renamer(ast.NodeTransformer):
